@@ -570,17 +570,17 @@ Proof.
 Qed.
 
 Lemma sanitize_clean_branch sens parse digest can record pre m o :
-  color_code can record = pre ++ m ->
+  record = pre ++ m ->
   (pre = [] \/ exists pre', pre = pre' ++ [bar]) -> parse m = Some o ->
   exists i o',
-    parse (join [bar] (skipn i (split bar (color_code can record)))) = Some o' /\
+    parse (join [bar] (skipn i (split bar record))) = Some o' /\
     sanitize_core sens parse digest can record =
-      join [bar] (firstn i (split bar (color_code can record)) ++
+      join [bar] (map (color_code can) (firstn i (split bar record)) ++
                   [T " " ++ json_dumps_flat (render_obj colours_on
                      (clean_obj sens py_str py_repr digest (colour_quotes colours_on) o'))]).
 Proof.
   intros Hc Hpre Hp. destruct (tail_found parse pre m o Hpre Hp) as [i [o' [F S]]].
-  exists i, o'. rewrite Hc. split; [exact S|]. unfold sanitize_core. rewrite Hc, F. reflexivity.
+  exists i, o'. rewrite Hc. split; [exact S|]. unfold sanitize_core. rewrite F. reflexivity.
 Qed.
 
 (* ------------------------------------------------------------------ *)
@@ -751,4 +751,73 @@ Proof.
   destruct (call_items_value digest h r false kvs E) as [o' [U' C']].
   rewrite U in U'. injection U' as <-.
   exists o. split; [exact U|]. unfold sess_step. cbn [heap_step call_out]. rewrite C, C'. split; reflexivity.
+Qed.
+
+(* ------------------------------------------------------------------ *)
+(* duplicate warnings and the report at exit *)
+Lemma warn_emits st m e : In e (snd (warn st m)) -> e = m.
+Proof.
+  unfold warn. destruct (existsb _ _); cbn [snd In]; intros H; [contradiction|].
+  destruct H as [H|[]]. now symmetry.
+Qed.
+
+Lemma warn_reg st m x : In x (w_reg (fst (warn st m))) -> x = m \/ In x (w_reg st).
+Proof.
+  unfold warn. destruct (existsb _ _); cbn [fst w_reg In]; intros H; [now right|].
+  destruct H as [H|H]; [left; now symmetry | now right].
+Qed.
+
+Lemma warn_all_spec : forall msgs st,
+  (forall e, In e (snd (warn_all st msgs)) -> In e msgs) /\
+  (forall x, In x (w_reg (fst (warn_all st msgs))) -> In x msgs \/ In x (w_reg st)).
+Proof.
+  induction msgs as [|m r IH]; intros st.
+  - cbn [warn_all fst snd]. split; [intros e []| intros x H; now right].
+  - cbn [warn_all]. destruct (warn st m) as [st1 e1] eqn:W.
+    destruct (warn_all st1 r) as [st2 e2] eqn:A. cbn [fst snd].
+    destruct (IH st1) as [IHe IHr]. rewrite A in IHe, IHr. cbn [fst snd] in IHe, IHr. split.
+    + intros e H. apply in_app_or in H as [H|H].
+      * left. symmetry. apply (warn_emits st m). now rewrite W.
+      * right. now apply IHe.
+    + intros x H. apply IHr in H as [H|H]; [left; now right|].
+      pose proof (warn_reg st m x) as R. rewrite W in R. cbn [fst] in R.
+      apply R in H as [->|H]; [left; now left | now right].
+Qed.
+
+Lemma warn_exit_spec gcl same src : forall reg dst e,
+  In e (warn_exit gcl same src dst reg) ->
+  exists m n, In m reg /\ e = WObj (report_obj gcl m (S n)).
+Proof.
+  induction reg as [|m r IH]; intros dst e H; [destruct H|].
+  cbn [warn_exit] in H. destruct (w_count _ m) as [|k].
+  - apply IH in H as [m' [n [I E]]]. exists m', n. split; [now right | exact E].
+  - destruct (warn dst (WObj (report_obj gcl m (S k)))) as [dst' e1] eqn:W.
+    apply in_app_or in H as [H|H].
+    + exists m, k. split; [now left|]. apply (warn_emits dst). now rewrite W.
+    + apply IH in H as [m' [n [I E]]]. exists m', n. split; [now right | exact E].
+Qed.
+
+Lemma warn_session_emits gcl same msgs e : In e (warn_session gcl same msgs) ->
+  In e msgs \/ exists m n, In m msgs /\ e = WObj (report_obj gcl m (S n)).
+Proof.
+  unfold warn_session. destruct (warn_all w_empty msgs) as [st e0] eqn:A.
+  destruct (warn_all_spec msgs w_empty) as [He Hr]. rewrite A in He, Hr. cbn [fst snd] in He, Hr.
+  intros H. apply in_app_or in H as [H|H]; [left; now apply He|].
+  right. apply warn_exit_spec in H as [m [n [I E]]]. exists m, n. split; [|exact E].
+  apply Hr in I as [I|[]]. exact I.
+Qed.
+
+Lemma report_keys_plain : plain_key (T "message") = true /\ plain_key (T "suppressed") = true.
+Proof. split; vm_compute; reflexivity. Qed.
+
+Lemma report_redacts (str_of repr_of : json -> text) (digest colq : text -> text) gcl m n p i kvs k v :
+  forallb plain_key (jkeys p (wvalue gcl m)) = true ->
+  jget p (wvalue gcl m) = Some (JObj kvs) -> nth_error kvs i = Some (k, v) -> sensitive_spec k = true ->
+  cget ((1%nat :: p) ++ [i]) (clean_val sensitive_code str_of repr_of digest colq (JObj (report_obj gcl m n))) =
+    Some (CRedacted (digest (str_of v))) /\
+  forall q, q <> [] ->
+    cget (((1%nat :: p) ++ [i]) ++ q) (clean_val sensitive_code str_of repr_of digest colq (JObj (report_obj gcl m n))) = None.
+Proof.
+  intros Hc Hg Hn Hs.
+  apply (clean_redacts_spec str_of repr_of digest colq (JObj (report_obj gcl m n)) (1%nat :: p) i kvs k v); try assumption.
 Qed.
